@@ -16,7 +16,7 @@ import time
 from harness import vlib
 from harness.props import c20_gen, c20_oracle
 
-KF_KINDS = ("recursive-class", "self-type", "nt-mutable-default", "defs-bare-name-clash", "generic-typevar-leak", "table-override-recursion")
+KF_KINDS = ("recursive-class", "self-type", "nt-mutable-default", "defs-bare-name-clash", "generic-typevar-leak")
 
 
 def _replay_of(case: dict, res: dict) -> dict:
@@ -312,7 +312,7 @@ def run(ctx: vlib.Ctx):
     oracle_part(ctx, n)
     ctx.trusted.append("jsonschema package (Draft202012Validator.check_schema incl. format checks) as the metaschema validator of the oracle")
     ctx.trusted.append("harness/props/c20_gen.py: the feature predicates (cyclic, Self, NamedTuple mutable default, string-annotated NamedTuple "
-                       "under a default, generic specialisations, table strategy leading back to its key) that attribute a failure to a known finding")
+                       "under a default, generic specialisations) that attribute a failure to a known finding")
     ctx.assumptions.append("excluded from the quantification (stated, narrow): families whose class creation itself fails; Annotated "
                            "constraint values that are themselves invalid (negative MinItems, malformed Pattern); defaults that are not "
                            "values of the field type; NamedTuple/TypedDict classes defined in a PEP 563 module; user json_schema overrides containing $ref")
